@@ -1204,3 +1204,34 @@ fn test_u128_u32_roundtrip() {
         assert_eq!(u32_to_u128(a, b, c, d), *val);
     }
 }
+
+#[cfg(num_bigint_verif)]
+pub mod verif {
+    //! Verification-only access to private items (compiled only with
+    //! `--cfg num_bigint_verif`).
+    pub use super::addition::verif as addition;
+    pub use super::convert::verif as convert;
+    pub use super::division::verif as division;
+    pub use super::monty::verif as monty;
+    pub use super::multiplication::verif as multiplication;
+    pub use super::power::verif as power;
+    pub use super::subtraction::verif as subtraction;
+    use super::BigUint;
+    use alloc::vec::Vec;
+
+    /// Raw digits, exactly as stored (no normalisation).
+    pub fn data(x: &BigUint) -> &[u64] {
+        &x.data
+    }
+    /// Capacity of the digit buffer.
+    pub fn capacity(x: &BigUint) -> usize {
+        x.data.capacity()
+    }
+    /// The crate-internal constructor used by deserializers and generators.
+    pub fn biguint_from_vec(digits: Vec<u64>) -> BigUint {
+        super::biguint_from_vec(digits)
+    }
+    pub fn cmp_slice(a: &[u64], b: &[u64]) -> core::cmp::Ordering {
+        super::cmp_slice(a, b)
+    }
+}
